@@ -18,7 +18,7 @@ CONSTANTS Templates, Export
 Space(t) == CASE t = "branch" -> Branch [] t = "loop" -> LoopP [] t = "nested" -> Nested
               [] t = "straight" -> Straight [] t = "call" -> CallP [] t = "rec" -> RecP
               [] t = "closure" -> Closure [] t = "loopbranch" -> LoopBranch [] t = "rangebranch" -> RangeBranch [] t = "strbranch" -> StrBranch
-              [] t = "sharedcmp" -> SharedCmp [] t = "fltbranch" -> FltBranch [] t = "extract" -> Extract [] t = "ubig" -> UBig [] t = "consttype" -> ConstType [] t = "sibloops" -> SibLoops [] t = "orand" -> OrAnd [] t = "switch2" -> Switch2
+              [] t = "sharedcmp" -> SharedCmp [] t = "fltbranch" -> FltBranch [] t = "extract" -> Extract [] t = "ubig" -> UBig [] t = "consttype" -> ConstType [] t = "sibloops" -> SibLoops [] t = "dectree" -> DecTree [] t = "orand" -> OrAnd [] t = "switch2" -> Switch2
               [] OTHER -> BigConst
 Programs == UNION {Space(t) : t \in Templates}
 
@@ -48,6 +48,12 @@ HasBadFlip(p) == p.tpl \in {"sharedcmp", "fltbranch"}
 \* the bodies of the if and of the else exchanged, the test untouched (C04 names this edit)
 HasExchange(p) == p.tpl \in {"branch", "sharedcmp", "fltbranch", "orand", "switch2"} /\ p.thenE # p.elseE
 Exchange(p) == [p EXCEPT !.thenE = p.elseE, !.elseE = p.thenE]
+\* decision trees: leaves exchanged within a subtree, across subtrees, and the two subtrees exchanged
+TreeMoves(p) ==
+  IF p.tpl # "dectree" THEN {}
+  ELSE {[p EXCEPT !.l1 = p.l2, !.l2 = p.l1], [p EXCEPT !.l3 = p.l4, !.l4 = p.l3],
+        [p EXCEPT !.l2 = p.l3, !.l3 = p.l2], [p EXCEPT !.l1 = p.l4, !.l4 = p.l1],
+        [p EXCEPT !.c2 = p.c3, !.c3 = p.c2, !.l1 = p.l3, !.l3 = p.l1, !.l2 = p.l4, !.l4 = p.l2]} \ {p}
 
 Edge(p, q, kind) ==
   LET same == SameBehaviour(p, q) IN
@@ -58,6 +64,7 @@ EdgesOf(p) ==
   {Edge(p, q, "edit") : q \in Neighbours(p)} \cup {Edge(p, BadSwap(p), "badswap")}
     \cup (IF HasBadFlip(p) THEN {Edge(p, BadFlip(p), "badflip")} ELSE {})
     \cup (IF HasExchange(p) THEN {Edge(p, Exchange(p), "exchange")} ELSE {})
+    \cup {Edge(p, q, "exchange") : q \in TreeMoves(p)}
     \cup {Edge(p, WithPres(p, pr), "refactor") : pr \in {x \in RefPres : Applicable(p, x)}}
 
 OutsOf(p) == LET q == InSeq(p) IN [k \in DOMAIN q |-> [a |-> q[k][1], b |-> q[k][2], r |-> Eval(p, q[k][1], q[k][2])]]
